@@ -323,7 +323,20 @@ pub fn run_check(check: &dyn Check, opts: &Options) -> i32 {
                 }
                 let mut rng = Rng::new(derive_seed(opts.seed, id, i));
                 let scenario = check.generate(&mut rng, opts.tier, i);
-                let out = check.execute(&scenario);
+                // a panic inside the harness itself is a harness error (exit 2), never a verdict
+                let out = match std::panic::catch_unwind(std::panic::AssertUnwindSafe(|| check.execute(&scenario))) {
+                    Ok(o) => o,
+                    Err(p) => {
+                        let msg = if let Some(s) = p.downcast_ref::<&str>() {
+                            s.to_string()
+                        } else if let Some(s) = p.downcast_ref::<String>() {
+                            s.clone()
+                        } else {
+                            "panic".to_string()
+                        };
+                        Err(format!("harness panicked while executing a scenario: {}", msg))
+                    }
+                };
                 results.lock().unwrap().insert(i, Slot { scenario, out });
             });
         }
